@@ -1,5 +1,6 @@
 mod checks;
 mod engine;
+mod util;
 
 use engine::Tier;
 
